@@ -709,11 +709,11 @@ def run_segment(plan, ctx, detail=False, table=None):
                 probe("notebook_path")
             for _, t in ua["params"]:
                 probe("param_type:" + re.sub(r"\d+", "n", t))
-            def compiled_table(kind, src_fn):
-                sk = (kind, ua["src"], canon(a["values"]) if kind != "typed" else "", ua["opt"])
+            def compiled_table(kind, src_fn, to_compile=False):
+                sk = (kind, ua["src"], canon(a["values"]) if kind != "typed" else "", ua["opt"], to_compile)
                 if sk not in spec_memo:
                     try:
-                        sq = qlassf(src_fn(), defs=[objs[i] for i in ua["defs"]], to_compile=False, bool_optimizer=_opt(ua["opt"]))
+                        sq = qlassf(src_fn(), defs=[objs[i] for i in ua["defs"]], to_compile=to_compile, bool_optimizer=_opt(ua["opt"]))
                         bits = sum(len(x.bitvec) for x in sq.args)
                         t_ = table_of(sq) if bits <= (MAX_TABLE_BITS if kind != "typed" else 12) else None
                         if t_ is None and kind == "typed" and bits <= 12:
@@ -737,7 +737,8 @@ def run_segment(plan, ctx, detail=False, table=None):
                 records.append(rec)
                 if violation is None and "fault" not in a:
                     # rejection is allowed only for what cannot be specialised by hand either
-                    inj_tb, inj_state = compiled_table("inj", lambda: injected(ua["src"], a["values"]))
+                    # (with the unbound function's own to_compile: a refusal by circuit synthesis counts)
+                    inj_tb, inj_state = compiled_table("inj", lambda: injected(ua["src"], a["values"]), to_compile=ua["to_compile"])
                     probe("rejected_bind_inj_" + inj_state.split(":")[0])
                     if inj_state in ("ok", "too_big"):
                         violation = viol("B0", op, ["bind rejects a program that is accepted with the assignments prepended by hand: " + outcome], msg=rec.get("msg"), values=a["values"], order=a["order"])
@@ -761,21 +762,10 @@ def run_segment(plan, ctx, detail=False, table=None):
                     if skey in sem_table and sem_table[skey] != rec["table"]:
                         violation = viol("B4", op, ["truth table differs from an earlier bind to the same values"])
                     sem_table.setdefault(skey, rec["table"])
-                    # B2: the prepended-assignment form built by the harness, compiled the ordinary way
-                    inj_tb, inj_state = compiled_table("inj", lambda: injected(ua["src"], a["values"]))
-                    probe("inj_" + inj_state.split(":")[0])
-                    if inj_tb is not None and not (inj_tb[0] == hdr and inj_tb[1] == rows):
-                        violation = viol("B2", op, ["bound function differs from the program with the assignments prepended by hand"], values=a["values"], order=a["order"])
-                    elif inj_state.startswith("rejected"):
-                        violation = viol("B2", op, ["bind accepted what the program with the assignments prepended by hand rejects: " + inj_state])
-                    # the literal-substituted form: a probe of the front end's consistency, not an oracle for bind
-                    lit_tb, lit_state = compiled_table("lit", lambda: specialise(ua["src"], a["values"]))
-                    if lit_tb is not None:
-                        probe("literal_form_" + ("agrees" if (lit_tb[0] == hdr and lit_tb[1] == rows) else "differs_(front_end_matter)"))
-                    # B1: the unbound program as plain Python, parameters set to v
+                    # B1 first: the unbound program as plain Python, parameters set to v
                     b1 = None
                     pyf, pv = None, {}
-                    if violation is None and not ua["tmpl"].startswith("corpus"):
+                    if not ua["tmpl"].startswith("corpus"):
                         try:
                             dec = decode_rows(hdr, rows, ua["args"], ua["ret"])
                             if dec is not None:
@@ -793,25 +783,48 @@ def run_segment(plan, ctx, detail=False, table=None):
                             b1 = None
                             rec["b1_err"] = type(e).__name__
                         probe("B1_" + str(b1))
-                    if b1 is False:
-                        # who is responsible? compile the same program with the parameters kept as
-                        # ordinary arguments of their declared types and look at the rows where they equal v
-                        agree = None
+
+                    def typed_form_agrees():
+                        """the same program with the parameters kept as ordinary arguments of their declared
+                        types, restricted to the rows where they equal v: True / False / None (cannot tell)"""
                         ty_tb, ty_state = compiled_table("typed", lambda: typed_arguments(ua["src"]))
-                        if ty_tb is not None:
-                            want = {}
-                            for n, t_ in ua["params"]:
-                                eb = encode_bits(n, t_, a["values"].get(n))
-                                if eb is None:
-                                    want = None
-                                    break
-                                want.update(eb)
-                            if want is not None:
-                                th, tr = ty_tb
-                                keep = [i for i, h_ in enumerate(th) if h_ not in want]
-                                sel = [[row[i] for i in keep] for row in tr if all(row[th.index(bn)] == bv for bn, bv in want.items())]
-                                agree = [th[i] for i in keep] == hdr and sel == rows
-                        if agree is False:
+                        if ty_tb is None:
+                            return None
+                        want = {}
+                        for n, t_ in ua["params"]:
+                            eb = encode_bits(n, t_, a["values"].get(n))
+                            if eb is None:
+                                return None
+                            want.update(eb)
+                        th, tr = ty_tb
+                        if any(bn not in th for bn in want):
+                            return None
+                        keep = [i for i, h_ in enumerate(th) if h_ not in want]
+                        sel = [[row[i] for i in keep] for row in tr if all(row[th.index(bn)] == bv for bn, bv in want.items())]
+                        return [th[i] for i in keep] == hdr and sel == rows
+
+                    # B2: the prepended-assignment form built by the harness, compiled the ordinary way.
+                    # Arbitration: a bound function that agrees with plain Python (or, without a Python-level
+                    # value, with the typed-argument form) is right even where the hand-built form is not
+                    inj_tb, inj_state = compiled_table("inj", lambda: injected(ua["src"], a["values"]))
+                    probe("inj_" + inj_state.split(":")[0])
+                    b2 = None if inj_tb is None else (inj_tb[0] == hdr and inj_tb[1] == rows)
+                    if b2 is False or inj_state.startswith("rejected"):
+                        vouched = b1 is True or (b1 is None and typed_form_agrees() is True)
+                        if vouched:
+                            probe("bind_vouched_for_against_the_hand_built_form_(front_end_matter)")
+                        elif b2 is False:
+                            violation = viol("B2", op, ["bound function differs from the program with the assignments prepended by hand"], values=a["values"], order=a["order"])
+                        else:
+                            violation = viol("B2", op, ["bind accepted what the program with the assignments prepended by hand rejects: " + inj_state])
+                    # the literal-substituted form: a probe of the front end's consistency, not an oracle for bind
+                    lit_tb, lit_state = compiled_table("lit", lambda: specialise(ua["src"], a["values"]))
+                    if lit_tb is not None:
+                        probe("literal_form_" + ("agrees" if (lit_tb[0] == hdr and lit_tb[1] == rows) else "differs_(front_end_matter)"))
+                    if b1 is False and violation is None:
+                        # who is responsible? the same program with the parameters kept as typed arguments
+                        agree = typed_form_agrees()
+                        if agree is True:
                             # binding introduced the difference. Is it the known one -- a Qint value compiled at
                             # its minimal width instead of the declared one? Only if some Qint leaf really is
                             # narrower than declared AND the program with *typed* constants prepended agrees
